@@ -170,6 +170,7 @@ type histEvent struct {
 	wait   bool
 	reconn bool
 	seq0   uint32
+	noHook bool
 	obj    int
 	ops    []setOp
 }
@@ -191,7 +192,11 @@ func parseHist(rest []string) []histEvent {
 			evs = append(evs, histEvent{wait: true})
 			rest = rest[1:]
 		case "X":
-			evs = append(evs, histEvent{reconn: true, seq0: uint32(atou(rest[1]))})
+			if rest[1] == "-" {
+				evs = append(evs, histEvent{reconn: true, noHook: true})
+			} else {
+				evs = append(evs, histEvent{reconn: true, seq0: uint32(atou(rest[1]))})
+			}
 			rest = rest[2:]
 		default:
 			panic("bad history token " + rest[0])
@@ -222,7 +227,7 @@ func runHistOnce(toks []string) (string, bool) {
 	p, addr := newPeer(proto)
 	var tInit time.Time
 	var ep *exporter.ExportingProcess
-	connect := func(q uint32) {
+	connect := func(q uint32, hook bool) {
 		tInit = time.Now()
 		var err error
 		ep, err = exporter.InitExportingProcess(exporter.ExporterInput{
@@ -233,9 +238,11 @@ func runHistOnce(toks []string) (string, bool) {
 			panic(err)
 		}
 		p.ready()
-		ep.VerifSetSeq(q)
+		if hook {
+			ep.VerifSetSeq(q)
+		}
 	}
-	connect(seq0)
+	connect(seq0, true)
 	timely := true
 	var out []string
 	var sets []entities.Set
@@ -255,7 +262,7 @@ func runHistOnce(toks []string) (string, bool) {
 			}
 			ep.CloseConnToCollector()
 			out = append(out, "x="+ShowBytes(p.endSession()))
-			connect(ev.seq0)
+			connect(ev.seq0, !ev.noHook)
 			continue
 		}
 		var set entities.Set
